@@ -1,0 +1,35 @@
+//go:build verif
+
+package p2pke
+
+import "go.brendoncarroll.net/p2p/f/x509"
+
+// The purpose tags of the two signatures of the handshake.
+const (
+	VerifPurposeChannelBinding = purposeChannelBinding
+	VerifPurposeTimestamp      = purposeTimestamp
+)
+
+// VerifNewMessage is newMessage, for the verification harness (verif build tag only).
+func VerifNewMessage(n uint32) Message { return newMessage(n) }
+
+// VerifSign is sign with the given purpose tag.
+func VerifSign(reg x509.Registry, priv x509.PrivateKey, purpose string, msg []byte) ([]byte, error) {
+	return sign(nil, &privateKey{Registry: reg, Key: priv}, purpose, msg)
+}
+
+// VerifVerify is verify with the given purpose tag.
+func VerifVerify(v x509.Verifier, purpose string, msg, sig []byte) error {
+	return verify(v, purpose, msg, sig)
+}
+
+// VerifMakeChannelAuthClaim is makeChannelAuthClaim.
+func VerifMakeChannelAuthClaim(reg x509.Registry, priv x509.PrivateKey, cb []byte) (keyX509, sig []byte) {
+	return makeChannelAuthClaim(&privateKey{Registry: reg, Key: priv}, cb)
+}
+
+// VerifVerifyAuthClaim is verifyAuthClaim; it returns the public key the claim authenticated.
+func VerifVerifyAuthClaim(reg x509.Registry, purpose string, keyX509, data, sig []byte) (x509.PublicKey, error) {
+	pk, err := verifyAuthClaim(reg, purpose, keyX509, data, sig)
+	return pk.Key, err
+}
